@@ -23,7 +23,8 @@ echo "--- fclones remove"
 echo "--- tree afterwards"
 ls -l current data
 
-if [ -f data/report.txt ] && [ "$(cat current/report.txt 2>/dev/null)" = "the only copy of this content" ]; then
+# (criterion: the content is still stored in a regular file; whether the link itself survives is not part of C02)
+if [ -f data/report.txt ] && [ ! -L data/report.txt ] && [ "$(cat data/report.txt 2>/dev/null)" = "the only copy of this content" ]; then
   echo "OK: content still present"
   exit 0
 fi
